@@ -67,7 +67,7 @@ func (w *World) errRecorders() map[*types.Func]*errRecorder {
 			if !ok || builtinName(info, c) != "append" || len(c.Args) != 2 {
 				return true
 			}
-			msg := unparen(c.Args[1])
+			msg := singleDefinition(info, f, unparen(c.Args[1]))
 			// fmt.Sprintf("line %d: ", line) + fmt.Sprintf(format, args...): the recorder adds the prefix
 			prefixed, lineIdx := false, -1
 			if be, isBE := msg.(*ast.BinaryExpr); isBE && be.Op == token.ADD {
@@ -638,4 +638,45 @@ func statementTokenRule(r *Run, rule string) {
 				"the node's token is captured after parsing has advanced: it is the LAST token of the construct, so a runtime error is reported on the line where the tag ends")
 		}
 	}
+}
+
+// singleDefinition: e is a local that is assigned exactly once in f: the expression assigned to it; e otherwise.
+func singleDefinition(info *types.Info, f *FuncInfo, e ast.Expr) ast.Expr {
+	o := objOf(info, e)
+	if o == nil {
+		return e
+	}
+	if _, isVar := o.(*types.Var); !isVar || o.Parent() == nil || o.Parent() == o.Pkg().Scope() {
+		return e
+	}
+	var def ast.Expr
+	n := 0
+	inspectBody(f.Decl.Body, false, func(m ast.Node) bool {
+		switch x := m.(type) {
+		case *ast.AssignStmt:
+			for i, l := range x.Lhs {
+				if objOf(info, l) == o {
+					n++
+					if len(x.Lhs) == len(x.Rhs) {
+						def = x.Rhs[i]
+					} else {
+						def = nil
+					}
+				}
+			}
+		case *ast.IncDecStmt:
+			if objOf(info, x.X) == o {
+				n += 2
+			}
+		case *ast.UnaryExpr:
+			if x.Op == token.AND && objOf(info, x.X) == o {
+				n += 2 // address taken
+			}
+		}
+		return true
+	})
+	if n == 1 && def != nil {
+		return unparen(def)
+	}
+	return e
 }
